@@ -40,7 +40,7 @@ func NewOrigin() *Origin {
 	return o
 }
 
-func (o *Origin) Close()               { o.Srv.Close() }
+func (o *Origin) Close()                 { o.Srv.Close() }
 func (o *Origin) URL(path string) string { return o.Srv.URL + path }
 func (o *Origin) Hits(path string) int {
 	o.mu.Lock()
